@@ -576,6 +576,32 @@ func TestC14History(t *testing.T) {
 		if chance(rt, "huge", 25) {
 			c.History = genHugeHistory(rt, w)
 			rec.Label("history", "huge-amounts")
+		} else if chance(rt, "rich-pauses", 25) {
+			// every packet meets a state in which several protocols (with and without a
+			// controller), actions and counterparties are paused
+			for _, p := range []string{"PROTOCOL_IBC", "PROTOCOL_CCTP", "PROTOCOL_HYPERLANE", "PROTOCOL_INTERNAL"} {
+				if chance(rt, "rich/"+p, 50) {
+					c.History = append(c.History, kit.Step{Admin: &kit.Admin{Kind: "pause_protocol", Protocol: p}})
+				}
+			}
+			for _, a := range []string{"ACTION_FEE", "ACTION_SWAP"} {
+				if chance(rt, "rich/"+a, 40) {
+					c.History = append(c.History, kit.Step{Admin: &kit.Admin{Kind: "pause_action", Action: a}})
+				}
+			}
+			if chance(rt, "rich/cc", 50) {
+				c.History = append(c.History,
+					kit.Step{Admin: &kit.Admin{Kind: "pause_cc", Protocol: "PROTOCOL_CCTP", Ids: []string{"0", "1"}}},
+					kit.Step{Admin: &kit.Admin{Kind: "pause_cc", Protocol: "PROTOCOL_HYPERLANE", Ids: []string{"1"}}},
+					kit.Step{Admin: &kit.Admin{Kind: "pause_cc", Protocol: "PROTOCOL_INTERNAL", Ids: []string{"noble"}}},
+					kit.Step{Admin: &kit.Admin{Kind: "pause_cc", Protocol: "PROTOCOL_IBC", Ids: []string{"channel-0", "channel-1"}}})
+			}
+			n := 2 + rapid.IntRange(0, 6).Draw(rt, "rich/packets")
+			for i := 0; i < n; i++ {
+				tr := genMixedPacket(rt, w)
+				c.History = append(c.History, kit.Step{Packet: &tr})
+			}
+			rec.Label("history", "rich-pauses")
 		} else {
 			c.History = kit.GenHistory(rt, opt)
 			rec.Label("history", "mixed")
